@@ -27,7 +27,7 @@ func (Prop) Rule() string {
 	return "E1: BFS (depth 4 quick / 5 thorough, sharded by first operation) plus deviation-bounded histories (default write to horizon 8 with <= 2 departures; thorough: horizon 14 with <= 2 and horizon 6 with <= 3) over {Write(c) for 22 chunk sizes, Reset, Marshal->Unmarshal into fresh / used object} on a real sm3.New() object, " +
 		"oracle after every step = reference SM3 of the bytes since the last Reset via Sum(nil) and Sum(prefix), Sum must leave the private state dump unchanged; " +
 		"states are merged only on identical full private state (h, x incl. stale bytes, nx, len) + model length. " +
-		"E2: full product len(z) x keyLen for sm3.Kdf, kdf.Kdf(sm3.New), kdf.Kdf over wrappers hiding KdfInterface / BinaryMarshaler, against SM3(z||ct) concatenation. " +
+		"KDF call histories: every ordered pair (z1, z2) over 14 residue classes x key lengths {97,225,300}^2, both calls compared with the reference (a result must not depend on an earlier call). E2: full product len(z) x keyLen for sm3.Kdf, kdf.Kdf(sm3.New), kdf.Kdf over wrappers hiding KdfInterface / BinaryMarshaler, against SM3(z||ct) concatenation. " +
 		"distinct_nontrivial counts distinct reached states plus distinct (len(z) mod 64, output-block-count, partial-last-block) KDF classes."
 }
 func (Prop) Assumptions() []string {
@@ -235,6 +235,45 @@ func (Prop) Run(c *engine.Ctx) {
 			t.Nontrivial(fmt.Sprintf("oneshot/%d", n))
 		}
 	})
+	// KDF call histories: the result must not depend on what an earlier call in the same process left behind
+	// (pooled or hoisted scratch buffers): every ordered pair (z1, z2) over residue classes, both calls checked.
+	histZ := []int{0, 8, 40, 51, 52, 55, 56, 59, 60, 63, 64, 100, 127, 192}
+	histK := []int{97, 225, 300}
+	for _, n1 := range histZ {
+		n1 := n1
+		c.Case(fmt.Sprintf("kdf/history/first-z=%d", n1), func(t *engine.T) {
+			mk := func(n int) []byte {
+				z := make([]byte, n)
+				for i := range z {
+					z[i] = content(i + 11)
+				}
+				return z
+			}
+			z1 := mk(n1)
+			for _, n2 := range histZ {
+				z2 := mk(n2)
+				for _, k1 := range histK {
+					for _, k2 := range histK {
+						for _, api := range []struct {
+							name string
+							f    func(z []byte, n int) []byte
+						}{{"sm3.Kdf", sm3.Kdf}, {"kdf.Kdf(sm3.New)", func(z []byte, n int) []byte { return kdf.Kdf(sm3.New, z, n) }}} {
+							a := api.f(z1, k1)
+							b := api.f(z2, k2)
+							t.Eval(2)
+							if w := sm3ref.KDF(z1, k1); !bytes.Equal(a, w) {
+								t.Fail("kdf/history/first-call-mismatch", "%s(len(z)=%d, %d) = %s want %s", api.name, n1, k1, engine.Hex(a), engine.Hex(w))
+							}
+							if w := sm3ref.KDF(z2, k2); !bytes.Equal(b, w) {
+								t.Fail(fmt.Sprintf("kdf/history/%s/second-call-depends-on-first", api.name), "%s(len(z)=%d, %d) after %s(len(z)=%d, %d): got %s want %s (first difference at byte %d)", api.name, n2, k2, api.name, n1, k1, engine.Hex(b), engine.Hex(w), engine.FirstDiff(b, w))
+							}
+						}
+					}
+				}
+				t.Nontrivial(fmt.Sprintf("kdf-history/%d/%d", n1, n2))
+			}
+		})
+	}
 	// E2 KDF
 	var zl []int
 	for i := 0; i <= 200; i++ {
